@@ -106,6 +106,14 @@ pub enum Class {
     /// returns stack slots it never wrote (0 on a fresh interpreter stack). Contains an unreachable
     /// call to a never-registered helper, so neither compiler accepts it: interpreter only.
     StackLeakRead,
+    /// Fixed-metadata VM: stores one byte in the VM's own metadata buffer (outside the two slots),
+    /// then returns - or, in the failing variant (interpreter only), runs into an out-of-bounds load.
+    /// Bytes a program stored there stay until the next successful set_program.
+    MetaStore,
+    /// Fixed-metadata VM: returns one byte of the VM's own metadata buffer (outside the two slots):
+    /// 0 unless a program stored there since the last successful set_program. One variant overwrites
+    /// the byte after reading it.
+    MetaRead,
 }
 
 impl Class {
@@ -118,6 +126,8 @@ impl Class {
             Class::HarmlessInvalid => "HarmlessInvalid",
             Class::Unsafe => "Unsafe",
             Class::R1Plain => "R1Plain",
+            Class::MetaStore => "MetaStore",
+            Class::MetaRead => "MetaRead",
             Class::ProbeR1 => "ProbeR1",
             Class::ProbeSlotData => "ProbeSlotData",
             Class::ProbeSlotLen => "ProbeSlotLen",
@@ -167,6 +177,8 @@ impl Class {
             Class::LongAlu,
             Class::FailInCallee,
             Class::ProbeCallThenPkt,
+            Class::MetaStore,
+            Class::MetaRead,
         ] {
             if c.name() == s {
                 return Some(c);
@@ -351,6 +363,47 @@ pub fn gen_fixed_beyond_end(tag: u8, doff: usize, eoff: usize, beyond: usize) ->
     let mut p = mk(b.v, tag, Class::FixedBeyondEnd);
     p.offsets = Some((doff, eoff));
     p.p0 = at as i64;
+    p
+}
+
+/// `k` is a byte of the metadata buffer outside both slots; `v` the byte stored.
+pub fn gen_meta_store(tag: u8, doff: usize, eoff: usize, k: usize, v: u8, fails: bool) -> Prog {
+    let mut b = B::new(tag);
+    b.i(MOV64_REG, 8, 1, 0, 0);
+    b.i(ADD64_IMM, 8, 0, 0, k as i32);
+    b.i(STB_IMM, 8, 0, 0, v as i32);
+    if fails {
+        // beyond the buffer (inside the slack the harness keeps behind it, where no packet can
+        // lie): the interpreter refuses the load, the execution ends in Err
+        b.i(ADD64_IMM, 8, 0, 0, (doff.max(eoff) + 8 + 1000 - k) as i32);
+        b.i(LDXB, 0, 8, 0, 0);
+        b.i(0x05, 0, 0, 1, 0); // ja +1
+        b.i(CALL, 0, 0, 0, KEY_NEVER as i32); // unreachable; keeps both compilers away
+    }
+    b.i(MOV64_IMM, 0, 0, 0, v as i32);
+    b.trailer(tag);
+    let mut p = mk(b.v, tag, Class::MetaStore);
+    p.offsets = Some((doff, eoff));
+    p.p0 = k as i64;
+    p.p1 = v as i64 | if fails { 0x100 } else { 0 };
+    p
+}
+
+/// `then_store`: after reading the byte the program overwrites it (so its own next execution
+/// reads that value: the carry-over C10 allows).
+pub fn gen_meta_read(tag: u8, doff: usize, eoff: usize, k: usize, then_store: Option<u8>) -> Prog {
+    let mut b = B::new(tag);
+    b.i(MOV64_REG, 8, 1, 0, 0);
+    b.i(ADD64_IMM, 8, 0, 0, k as i32);
+    b.i(LDXB, 0, 8, 0, 0);
+    if let Some(v) = then_store {
+        b.i(STB_IMM, 8, 0, 0, v as i32);
+    }
+    b.trailer(tag);
+    let mut p = mk(b.v, tag, Class::MetaRead);
+    p.offsets = Some((doff, eoff));
+    p.p0 = k as i64;
+    p.p1 = then_store.map(|v| v as i64 | 0x100).unwrap_or(0);
     p
 }
 
@@ -887,7 +940,9 @@ pub fn gen_probe_pkt_abs(tag: u8, idx: usize, w: u8) -> Prog {
     p
 }
 
-pub fn gen_probe_pkt_ind(tag: u8, idx: usize, regval: usize, w: u8, src: u8) -> Prog {
+/// `regval` may be negative (then `idx` is larger by as much): the address arithmetic wraps around
+/// and still lands on the same packet byte.
+pub fn gen_probe_pkt_ind(tag: u8, idx: usize, regval: i64, w: u8, src: u8) -> Prog {
     let mut b = B::new(tag);
     b.i(MOV64_IMM, 0, 0, 0, -1);
     b.i(MOV64_IMM, src, 0, 0, regval as i32);
@@ -895,8 +950,8 @@ pub fn gen_probe_pkt_ind(tag: u8, idx: usize, regval: usize, w: u8, src: u8) -> 
     b.trailer(tag);
     let mut p = mk(b.v, tag, Class::ProbePktInd);
     p.p0 = idx as i64;
-    p.p1 = regval as i64;
-    p.min_pkt = idx + regval + 8;
+    p.p1 = regval;
+    p.min_pkt = (idx as i64 + regval) as usize + 8;
     p.w = w;
     p
 }
